@@ -21,7 +21,10 @@ package main
 //      imply w + width(X) <= s.width (a grapheme may exceed it only on an empty line); w is
 //      advanced by width(X) after every addition; widths are measured over exactly X
 //   f  (plain) segmenter state pairing: s.state is the state returned with `rest` iff s.rest = rest;
-//      any other new rest restarts the segmenter (-1); constructor starts with -1
+//      any other new rest restarts the segmenter (-1); constructor starts with -1. A field written as a
+//      result target of the segmenter call (`seg, rest, br, s.state = ...`) is a store at the call
+//      (c16tuple.go turns it into one); `prev := s.state` at the top of the iteration names the state the
+//      iteration found, which a path that consumes nothing may put back
 
 import (
 	"fmt"
@@ -48,8 +51,10 @@ type c16Scanner struct {
 	defs   *c15Defs
 
 	segCall                      *ast.CallExpr
+	segIdx                       int // index of the segmenter statement in the loop body (after leading bare declarations)
 	seg, rest, word, trSpace, br types.Object
 	state                        types.Object // plain only
+	stateIn                      types.Object // plain only: single-definition local holding s.state as the iteration found it
 	w                            types.Object
 	measure                      map[types.Object]types.Object // word -> wordLen
 	measureLoop                  map[ast.Stmt]bool
@@ -157,7 +162,24 @@ func c16Load(c *Ctx, short string) *c16Scanner {
 		s.und("C16.a", "segmenter", s.loop.Pos(), "empty loop")
 		return nil
 	}
-	as, ok := s.loop.Body.List[0].(*ast.AssignStmt)
+	// (declarations without values that a maintainer collected at the top of the body have no effect: skip them)
+	// (so is a snapshot `prev := s.state` of the state the iteration starts with: a path may put it back)
+	for s.segIdx < len(s.loop.Body.List)-1 {
+		st := s.loop.Body.List[s.segIdx]
+		if c16IsBareVarDecl(st) {
+			s.segIdx++
+			continue
+		}
+		if sn, ok := st.(*ast.AssignStmt); ok && sn.Tok == token.DEFINE && len(sn.Lhs) == 1 && len(sn.Rhs) == 1 && s.fields["state"] != nil && s.isField(sn.Rhs[0], "state") {
+			if id, ok := sn.Lhs[0].(*ast.Ident); ok && id.Name != "_" && s.stateIn == nil && s.defs.count[s.info.ObjectOf(id)] == 1 {
+				s.stateIn = s.info.ObjectOf(id)
+				s.segIdx++
+				continue
+			}
+		}
+		break
+	}
+	as, ok := s.loop.Body.List[s.segIdx].(*ast.AssignStmt)
 	if ok && as.Tok == token.DEFINE && len(as.Rhs) == 1 {
 		if call, ok := as.Rhs[0].(*ast.CallExpr); ok && len(call.Args) >= 1 && s.isField(call.Args[0], "rest") {
 			s.segCall = call
@@ -183,14 +205,14 @@ func c16Load(c *Ctx, short string) *c16Scanner {
 		}
 	}
 	if s.segCall == nil || s.seg == nil || s.br == nil {
-		s.und("C16.a", "segmenter", s.loop.Body.List[0].Pos(), "the loop does not start with `seg, ..., br := <segmenter>(s.rest, ...)`")
+		s.und("C16.a", "segmenter", s.loop.Body.List[s.segIdx].Pos(), "the loop does not start with `seg, ..., br := <segmenter>(s.rest, ...)`")
 		return nil
 	}
 	fn := calleeOf(s.info, s.segCall)
 	segName := fullName(fn)
 	switch {
 	case segName == "github.com/rivo/uniseg.FirstLineSegment" || segName == "github.com/rivo/uniseg.FirstLineSegmentInString":
-		if s.rest == nil || s.state == nil || len(s.segCall.Args) != 2 || !s.isField(s.segCall.Args[1], "state") {
+		if s.rest == nil || s.state == nil || len(s.segCall.Args) != 2 || !(s.isField(s.segCall.Args[1], "state") || s.isObj(s.segCall.Args[1], s.stateIn)) {
 			s.und("C16.f", "segmenter", s.segCall.Pos(), "uniseg.FirstLineSegment is not called as (s.rest, s.state) with all four results bound")
 			return nil
 		}
@@ -257,6 +279,24 @@ func c16Load(c *Ctx, short string) *c16Scanner {
 		return nil
 	}
 	return s
+}
+
+// c16IsBareVarDecl: `var a, b T` without values.
+func c16IsBareVarDecl(st ast.Stmt) bool {
+	ds, ok := st.(*ast.DeclStmt)
+	if !ok {
+		return false
+	}
+	gd, ok := ds.Decl.(*ast.GenDecl)
+	if !ok || gd.Tok != token.VAR {
+		return false
+	}
+	for _, sp := range gd.Specs {
+		if vs, ok := sp.(*ast.ValueSpec); !ok || len(vs.Values) != 0 {
+			return false
+		}
+	}
+	return true
 }
 
 // ---------------------------------------------------------------------------
@@ -957,6 +997,8 @@ func (s *c16Scanner) step(st ast.Stmt, p c16Path) []c16Path {
 				switch {
 				case r != nil && s.isObj(r, s.state):
 					p.state = "seg"
+				case r != nil && s.isObj(r, s.stateIn):
+					p.state = "orig" // the state this iteration started with is put back
 				case r != nil && func() bool { v, ok := constInt(info, r); return ok && v < 0 }():
 					p.state = "fresh"
 				default:
@@ -1562,7 +1604,7 @@ func c16Run(c *Ctx, s *c16Scanner) (sigs map[string]c16Path) {
 	s.checkPrologue()
 	s.checkConstruction()
 	start := c16Path{state: "orig"}
-	paths := s.exec(s.loop.Body.List[1:], start)
+	paths := s.exec(s.loop.Body.List[s.segIdx+1:], start)
 	seen := map[string]bool{}
 	for _, p := range paths {
 		if p.exit == "" {
@@ -1644,7 +1686,7 @@ func runC16(c *Ctx) {
 		"C16.d draw loops: one row per emitted line (row += 1 once per line), col restarts at 0 and advances by the width of each written cell, WriteCell(col, row, cell-of-this-line)",
 		"C16.e every non-whitespace addition X to the token is guarded by w + width(X) <= s.width (a grapheme may exceed only on an empty line); w advanced by width(X) after every addition; widths measured over exactly X",
 		"C16.i the widgets draw from their current content: no field of the widget (nor package variable) is both written and read on the Draw path, and the one cell slice RichText measures and wraps is built in that Draw, from empty, by appending Cell{Character: ch, Style: seg.Style} for every ch of ctx.Characters(seg.Text) for every seg of Content, before any consumer runs",
-		"C16.f plain scanner: s.state is the returned state iff s.rest = rest, -1 for any other new rest, untouched when nothing is consumed; constructor starts at -1",
+		"C16.f plain scanner: s.state is the returned state iff s.rest = rest, -1 for any other new rest, untouched (or put back from a snapshot taken at the top of the iteration) when nothing is consumed — a field that is a result target of the segmenter call counts as a store at the call; constructor starts at -1",
 		"C16.g progress: in the long-word split a grapheme is deferred to the next line only if the current line already has content (necessary for termination with a grapheme wider than the line)",
 	}
 	c.NotDec = []string{
